@@ -242,9 +242,10 @@ fn convert_hgignore_glob(glob: &str, file_path: &Path) -> Result<Regex, Error> {
             i += 1;
         }
 
+        // (the repository root may be the root directory itself: no separator twice)
         let pattern = format!(
             "^{}/(?:.*/)?{}(?:/|$)",
-            regex::escape(&file_path.to_string_lossy()),
+            regex::escape(file_path.to_string_lossy().trim_end_matches('/')),
             pattern
         );
 
